@@ -235,6 +235,12 @@ struct Gen<'a> {
     density: u64,
     thorough: bool,
     tracks_with_data: u64,
+    /// sharing decisions come from their own PRNG lane, so the objects of the private sub-space do not depend on them
+    rs: Rng,
+    share: Share,
+    /// key-frame payloads of the section being generated (candidates for sharing); cleared at every section start
+    pool: Vec<Kf>,
+    tracks_sharing: u64,
 }
 
 /// key-frame payload of one track: (ranges, timestamps, values) with the fake "original" offsets used as keys
@@ -246,6 +252,34 @@ struct Kf {
     o_r: u32,
     o_t: u32,
     o_v: u32,
+    /// element size of `vals`
+    vsize: usize,
+}
+
+/// How the tracks of one section share key-frame arrays (one array referenced by several tracks, as real files do for
+/// tracks keyed at the same times). The writer documents "shared data is written once"; the parser hands shared arrays
+/// back under one original offset.
+#[derive(Clone, Copy, PartialEq, Eq, Debug)]
+enum Share {
+    /// every track owns private arrays
+    Private,
+    /// a track occasionally references an array of an earlier track of the same section
+    Some,
+    /// most tracks reference an earlier track's array
+    Most,
+    /// every track with key frames references the section's first timestamp array
+    AllTimestamps,
+}
+
+impl Share {
+    fn tag(self) -> &'static str {
+        match self {
+            Share::Private => "private",
+            Share::Some => "some",
+            Share::Most => "most",
+            Share::AllTimestamps => "all-timestamps",
+        }
+    }
 }
 
 impl<'a> Gen<'a> {
@@ -288,7 +322,56 @@ impl<'a> Gen<'a> {
             kf.vals = if vsize == 2 || vsize == 8 && self.r.bool() { self.r.bytes(k * vsize) } else { float_bytes(self.r, k * vsize) };
             kf.o_v = self.off();
         }
+        kf.vsize = vsize;
         self.tracks_with_data += 1;
+        kf
+    }
+    fn section(&mut self) {
+        self.pool.clear();
+    }
+    /// Let `kf` reference arrays of an earlier track of the same section (same fake original offset, same bytes), then
+    /// make it a candidate itself. Arrays are only shared between slots of the same element size.
+    fn share_into(&mut self, mut kf: Kf, with_ranges: bool) -> Kf {
+        let go = match self.share {
+            Share::Private => false,
+            Share::Some => self.rs.chance(1, 4),
+            Share::Most => self.rs.chance(3, 4),
+            Share::AllTimestamps => true,
+        };
+        if go && !self.pool.is_empty() {
+            let prev = if self.share == Share::AllTimestamps { self.pool[0].clone() } else { self.pool[self.rs.usize(self.pool.len())].clone() };
+            // what to share: timestamps (the common case), optionally ranges and values as well
+            let (st, sr, sv) = match self.share {
+                Share::AllTimestamps => (true, false, false),
+                _ => match self.rs.below(6) {
+                    0 => (true, true, false),
+                    1 => (true, true, true),
+                    2 => (false, false, true),
+                    3 => (false, true, false),
+                    _ => (true, false, false),
+                },
+            };
+            let mut shared = false;
+            if st && !prev.ts.is_empty() {
+                kf.ts = prev.ts.clone();
+                kf.o_t = prev.o_t;
+                shared = true;
+            }
+            if sr && with_ranges && !prev.ranges.is_empty() {
+                kf.ranges = prev.ranges.clone();
+                kf.o_r = prev.o_r;
+                shared = true;
+            }
+            if sv && !prev.vals.is_empty() && prev.vsize == kf.vsize {
+                kf.vals = prev.vals.clone();
+                kf.o_v = prev.o_v;
+                shared = true;
+            }
+            if shared {
+                self.tracks_sharing += 1;
+            }
+        }
+        self.pool.push(kf.clone());
         kf
     }
     /// fill an animation block (28-byte track header with interpolation ranges); returns the payload if any
@@ -300,6 +383,8 @@ impl<'a> Gen<'a> {
         }
         let (rg, n, k) = self.kf_counts();
         let kf = self.kf(rg, n, k, T::SIZE);
+        let kf = self.share_into(kf, true);
+        let (rg, n, k) = (kf.ranges.len() / 8, kf.ts.len() / 4, kf.vals.len() / T::SIZE);
         b.track.interpolation_ranges = M2Array::new(rg as u32, kf.o_r);
         b.track.timestamps = M2Array::new(n as u32, kf.o_t);
         b.track.values.array = M2Array::new(k as u32, kf.o_v);
@@ -378,10 +463,12 @@ macro_rules! push_kf {
 }
 
 /// Build one model for header version `v`; `pattern[i]` is the size class of section i.
-fn gen_model(r: &mut Rng, vi: usize, risk: Risk, pattern: &[u8; NSECT], thorough: bool) -> (M2Model, u64) {
+fn gen_model(r: &mut Rng, rs: Rng, share: Share, vi: usize, risk: Risk, pattern: &[u8; NSECT], thorough: bool) -> (M2Model, u64, u64) {
     let (_, mv, v) = VERSIONS[vi];
     let density = if risk == Risk::StaticTrackHeaders { 0 } else { r.below(4) };
-    let mut g = Gen { r, v, risk, next_off: 0x0100_0000, density, thorough, tracks_with_data: 0 };
+    // a section whose every track shares needs every track to carry key frames
+    let density = if share == Share::AllTimestamps { 3 } else { density };
+    let mut g = Gen { r, v, risk, next_off: 0x0100_0000, density, thorough, tracks_with_data: 0, rs, share, pool: Vec::new(), tracks_sharing: 0 };
     let _ = g.thorough;
     let mut m = M2Model::default();
     m.header = M2Header::new(mv);
@@ -625,6 +712,7 @@ fn gen_model(r: &mut Rng, vi: usize, risk: Risk, pattern: &[u8; NSECT], thorough
     }
 
     // particle emitters
+    g.section();
     let n = size_of_class(g.r, pattern[20], false).min(4);
     for i in 0..n {
         let mut e = M2ParticleEmitter::parse(&mut zeros(), v).expect("seed particle emitter");
@@ -681,6 +769,7 @@ fn gen_model(r: &mut Rng, vi: usize, risk: Risk, pattern: &[u8; NSECT], thorough
     }
 
     // ribbon emitters
+    g.section();
     let n = size_of_class(g.r, pattern[21], false).min(5);
     for i in 0..n {
         let mut e = M2RibbonEmitter::parse(&mut zeros(), v).expect("seed ribbon emitter");
@@ -710,6 +799,7 @@ fn gen_model(r: &mut Rng, vi: usize, risk: Risk, pattern: &[u8; NSECT], thorough
     }
 
     // texture animations
+    g.section();
     let n = size_of_class(g.r, pattern[22], false);
     for i in 0..n {
         let mut a = M2TextureAnimation::parse(&mut zeros()).expect("seed texture animation");
@@ -728,6 +818,7 @@ fn gen_model(r: &mut Rng, vi: usize, risk: Risk, pattern: &[u8; NSECT], thorough
         m.texture_animations.push(a);
     }
     // color animations
+    g.section();
     let n = size_of_class(g.r, pattern[23], false);
     for i in 0..n {
         let mut a = M2ColorAnimation::parse(&mut zeros()).expect("seed color animation");
@@ -739,6 +830,7 @@ fn gen_model(r: &mut Rng, vi: usize, risk: Risk, pattern: &[u8; NSECT], thorough
         m.color_animations.push(a);
     }
     // transparency animations
+    g.section();
     let n = size_of_class(g.r, pattern[24], false);
     for i in 0..n {
         let mut a = M2TransparencyAnimation::default();
@@ -748,6 +840,7 @@ fn gen_model(r: &mut Rng, vi: usize, risk: Risk, pattern: &[u8; NSECT], thorough
         m.transparency_animations.push(a);
     }
     // events
+    g.section();
     let mut n = size_of_class(g.r, pattern[25], false);
     if risk == Risk::EventRanges && n == 0 {
         n = 1;
@@ -769,6 +862,9 @@ fn gen_model(r: &mut Rng, vi: usize, risk: Risk, pattern: &[u8; NSECT], thorough
             };
             let nr = if with_ranges { 1 + g.r.usize(4) } else { 0 };
             let kf = g.kf(nr, nt2, 0, 4);
+            // ranges of events stay private (they belong to the `event-ranges` trigger predicate); time stamps may be shared
+            let kf = g.share_into(kf, false);
+            let nt2 = kf.ts.len() / 4;
             e.times = M2Array::new(nt2 as u32, kf.o_t);
             e.ranges = M2Array::new(nr as u32, kf.o_r);
             let mut raw = EventRaw::default();
@@ -782,6 +878,7 @@ fn gen_model(r: &mut Rng, vi: usize, risk: Risk, pattern: &[u8; NSECT], thorough
         m.events.push(e);
     }
     // attachments
+    g.section();
     let n = size_of_class(g.r, pattern[26], false);
     for i in 0..n {
         let mut a = M2Attachment::parse(&mut zeros(), v).expect("seed attachment");
@@ -793,6 +890,7 @@ fn gen_model(r: &mut Rng, vi: usize, risk: Risk, pattern: &[u8; NSECT], thorough
         m.attachments.push(a);
     }
     // cameras
+    g.section();
     let n = size_of_class(g.r, pattern[27], false);
     for i in 0..n {
         let mut cam = M2Camera::parse(&mut zeros(), v).expect("seed camera");
@@ -816,6 +914,7 @@ fn gen_model(r: &mut Rng, vi: usize, risk: Risk, pattern: &[u8; NSECT], thorough
         m.cameras.push(cam);
     }
     // lights
+    g.section();
     let n = size_of_class(g.r, pattern[28], false);
     for i in 0..n {
         let mut li = M2Light::parse(&mut zeros(), v).expect("seed light");
@@ -839,10 +938,11 @@ fn gen_model(r: &mut Rng, vi: usize, risk: Risk, pattern: &[u8; NSECT], thorough
     }
     let _ = g.risk;
     let t = g.tracks_with_data;
+    let sh = g.tracks_sharing;
     if risk != Risk::StaticTrackHeaders {
         normalise_static_sections(&mut m);
     }
-    (m, t)
+    (m, t, sh)
 }
 
 fn reset_blk<T: Val>(b: &mut M2AnimationBlock<T>) {
@@ -1018,11 +1118,12 @@ fn project(m: &M2Model, cx: Ctx) -> Proj {
     );
     if cx.same() {
         let _ = write!(hs, " version={} magic={}", h.version, hex(&h.magic));
-        if cx.v >= 264 {
-            let _ = write!(hs, " skin_profiles={:?}", h.num_skin_profiles);
-        }
     }
     p.push(("header-scalars", vec![hs]));
+    // the number of external skin profiles is a header field of every version from 264 on
+    if cx.both(|v| v >= 264) {
+        p.push(("header-skin-profiles", vec![format!("{:?}", h.num_skin_profiles)]));
+    }
     p.push(("name", vec![format!("{:?}", m.name)]));
     p.push(("global_sequences", m.global_sequences.iter().map(|x| x.to_string()).collect()));
     let seq_full = cx.same();
@@ -1733,16 +1834,33 @@ fn pattern_for(r: &mut Rng, k: u64) -> [u8; NSECT] {
     p
 }
 
-fn model_case(c: &mut Case, rng: &mut Rng, vi: usize, risk: Risk, pattern: &[u8; NSECT], thorough: bool) {
-    let (m, tracks) = gen_model(rng, vi, risk, pattern, thorough);
-    let ctx = json!({"version": VERSIONS[vi].0, "risk": risk.tag(), "pattern": pattern.iter().map(|d| d.to_string()).collect::<String>(), "tracks_with_keyframes": tracks});
+fn model_case(c: &mut Case, rng: &mut Rng, rs: Rng, share: Share, vi: usize, risk: Risk, pattern: &[u8; NSECT], thorough: bool) {
+    let (m, tracks, sharing) = gen_model(rng, rs, share, vi, risk, pattern, thorough);
+    let ctx = json!({"version": VERSIONS[vi].0, "risk": risk.tag(), "share": share.tag(), "pattern": pattern.iter().map(|d| d.to_string()).collect::<String>(), "tracks_with_keyframes": tracks, "tracks_sharing_an_array": sharing});
     let populated = pattern.iter().filter(|&&d| d > 0).count();
     if populated >= 2 {
         c.count("models_with_several_sections_populated", 1);
     }
     c.count("tracks_with_keyframes", tracks);
+    c.count("tracks_sharing_an_array", sharing);
+    if sharing > 0 {
+        c.count("models_with_shared_keyframe_arrays", 1);
+    }
     check_model(c, &m, vi, risk, ctx);
 }
+
+/// share mode of a random model case (drawn from the sharing lane)
+fn share_for(rs: &mut Rng) -> Share {
+    match rs.below(8) {
+        0..=3 => Share::Private,
+        4 | 5 => Share::Some,
+        6 => Share::Most,
+        _ => Share::AllTimestamps,
+    }
+}
+
+/// sections whose records carry animation blocks / time-stamp arrays that can be shared (index into SECT_NAMES)
+const SHARING_SECTIONS: &[usize] = &[20, 21, 22, 23, 24, 25, 26, 27, 28];
 
 /// The smallest object that exhibits each risk feature, built from `M2Model::default()` (seed independent).
 fn minimal_model(vi: usize, risk: Risk) -> Option<M2Model> {
@@ -2001,9 +2119,11 @@ fn main() {
             _ => pattern_for(&mut rng, 3),
         };
         let pat_s: String = pattern.iter().map(|d| d.to_string()).collect();
-        let class = format!("m2|{}|{}|{}", VERSIONS[vi].0, risk.tag(), pat_s);
-        run.case(i, &class, json!({"kind": "m2", "version": VERSIONS[vi].0, "risk": risk.tag(), "pattern": pat_s, "sections": SECT_NAMES}), |c| {
-            model_case(c, &mut rng, vi, risk, &pattern, thorough);
+        let mut rs = run.rng(i, 1);
+        let share = share_for(&mut rs);
+        let class = format!("m2|{}|{}|{}|share={}", VERSIONS[vi].0, risk.tag(), pat_s, share.tag());
+        run.case(i, &class, json!({"kind": "m2", "version": VERSIONS[vi].0, "risk": risk.tag(), "share": share.tag(), "pattern": pat_s, "sections": SECT_NAMES}), |c| {
+            model_case(c, &mut rng, rs, share, vi, risk, &pattern, thorough);
         });
     }
     for k in 0..n_skins {
@@ -2043,6 +2163,34 @@ fn main() {
                     c.skip("feature does not exist in this version");
                 }
             });
+        }
+    }
+    // shared key-frame arrays, one section at a time: the section under test has many elements whose tracks all reference
+    // one time-stamp array; every other track-bearing section has one element (so a wrong running offset is seen behind it)
+    let rounds: u64 = if thorough { 40 } else { 4 };
+    for round in 0..rounds {
+        for &sect in SHARING_SECTIONS {
+            for vi in 0..VERSIONS.len() {
+                let i = idx;
+                idx += 1;
+                if !run.want(i) {
+                    continue;
+                }
+                let mut rng = run.rng(i, 0);
+                let rs = run.rng(i, 1);
+                let mut pattern = [0u8; NSECT];
+                for &s2 in SHARING_SECTIONS {
+                    pattern[s2] = 1;
+                }
+                pattern[4] = 1; // bones
+                pattern[sect] = 2;
+                let share = if round % 2 == 0 { Share::AllTimestamps } else { Share::Most };
+                let pat_s: String = pattern.iter().map(|d| d.to_string()).collect();
+                let class = format!("m2-shared|{}|{}|share={}", VERSIONS[vi].0, SECT_NAMES[sect], share.tag());
+                run.case(i, &class, json!({"kind": "m2-shared", "version": VERSIONS[vi].0, "section": SECT_NAMES[sect], "share": share.tag(), "pattern": pat_s}), |c| {
+                    model_case(c, &mut rng, rs, share, vi, Risk::Clean, &pattern, thorough);
+                });
+            }
         }
     }
     run.done();
